@@ -1,4 +1,4 @@
-import AnyDB.Generated.Orders
+import AnyDB.Generated.ConcOrders
 
 /-!
 # C10 — concurrent work on distinct regions is isolated; no foreign bytes read
@@ -76,7 +76,7 @@ def FreeFrom (s : St) (e : Nat) : Prop := ∀ x, e ≤ x → cnt s.claimed x = 0
 def ind (e : E) (x : Nat) : Nat := if e.1 ≤ x ∧ x < e.1 + e.2 then 1 else 0
 
 theorem cnt_cons (e : E) (t : List E) (x : Nat) : cnt (e :: t) x = ind e x + cnt t x := rfl
-theorem cnt_erase' (l : List E) (e : E) (x : Nat) (h : e ∈ l) : cnt (l.erase e) x + ind e x = cnt l x := cnt_erase l e x h
+theorem cnt_erase_ind (l : List E) (e : E) (x : Nat) (h : e ∈ l) : cnt (l.erase e) x + ind e x = cnt l x := cnt_erase l e x h
 
 theorem cnt_map_erase (regs : List (Nat × E)) (r : Nat × E) (x : Nat) (h : r ∈ regs) :
     cnt ((regs.erase r).map (·.2)) x + ind r.2 x = cnt (regs.map (·.2)) x := by
@@ -106,7 +106,7 @@ def takeHole (holes : List E) (h : E) (n : Nat) : List E :=
 
 theorem takeHole_cnt (holes : List E) (h : E) (n x : Nat) (hm : h ∈ holes) (hn : n ≤ h.2) :
     cnt (takeHole holes h n) x + ind (h.1, n) x = cnt holes x := by
-  have := cnt_erase' holes h x hm
+  have := cnt_erase_ind holes h x hm
   unfold takeHole
   rw [cnt_append]
   split
@@ -213,7 +213,7 @@ theorem moveRegion_inv (s : St) (r : Nat × E) (t : E) (hi : Inv s) (hm : r ∈ 
   intro x
   have h1 := hi x
   have e := cnt_map_erase s.regs r x hm
-  have e2 := cnt_erase' s.resv t x ht
+  have e2 := cnt_erase_ind s.resv t x ht
   rw [claimed_cnt] at h1 ⊢
   simp only [moveRegion, St.exts, List.map_cons, cnt_cons] at h1 e e2 ⊢
   omega
@@ -245,7 +245,7 @@ def dropReservation (s : St) (t : E) : St := { s with resv := s.resv.erase t, ho
 theorem dropReservation_inv (s : St) (t : E) (hi : Inv s) (ht : t ∈ s.resv) : Inv (dropReservation s t) := by
   intro x
   have h1 := hi x
-  have e2 := cnt_erase' s.resv t x ht
+  have e2 := cnt_erase_ind s.resv t x ht
   rw [claimed_cnt] at h1 ⊢
   simp only [dropReservation, St.exts, cnt_cons] at h1 e2 ⊢
   omega
@@ -514,5 +514,55 @@ example :
     let s0 : St := { regs := [(1, (0, 4096))], resv := [], holes := [], pending := [] }
     let s := runSecs s0 [.reserveAtEnd 8192, .moveRegion (1, (0, 4096)) (4096, 8192), .createInHole 2 (0, 4096) 4096, .createAtEnd 2 4096]
     s.regs = [(2, (12288, 4096)), (1, (4096, 8192))] ∧ s.pending = [(0, 4096)] := by
+  decide
+
+/-! ### the executable check the driver runs on real layouts, and the pins on the extracted orders -/
+
+/-- pairwise disjointness, executable -/
+def pwDisj : List E → Bool
+  | [] => true
+  | e :: t => t.all (fun f => decide (e.1 + e.2 ≤ f.1 ∨ f.1 + f.2 ≤ e.1)) && pwDisj t
+
+theorem cnt_zero_of_all_disj (e : E) (t : List E) (x : Nat)
+    (h : t.all (fun f => decide (e.1 + e.2 ≤ f.1 ∨ f.1 + f.2 ≤ e.1)) = true) (hx : e.1 ≤ x ∧ x < e.1 + e.2) : cnt t x = 0 := by
+  induction t with
+  | nil => rfl
+  | cons f r ih =>
+    simp only [List.all_cons, Bool.and_eq_true, decide_eq_true_eq] at h
+    simp only [cnt]
+    have := ih h.2
+    split <;> omega
+
+/-- what the driver answers `ok` for really is a state in which no byte belongs to two extents -/
+theorem C10_check_sound (l : List E) (h : pwDisj l = true) : ∀ x, cnt l x ≤ 1 := by
+  induction l with
+  | nil => intro x; simp [cnt]
+  | cons e t ih =>
+    intro x
+    simp only [pwDisj, Bool.and_eq_true] at h
+    simp only [cnt]
+    split
+    · rename_i hx
+      have := cnt_zero_of_all_disj e t x h.1 hx
+      omega
+    · have := ih h.2 x; omega
+
+/-- the part of a path of `write_with` that runs before the layout write lock is dropped for the first time -/
+def firstSection (l : List String) : List String := l.takeWhile (· != "dropLayout")
+
+/-- C10, the tie to the source: in every path of `Region::write_with` that claims space, the claim
+(`set_reserved` on the region, `reserve` for a relocation target) is made in the section that established that the
+space is free — before the layout lock is dropped; the relocation's `move_region` / `take_reserved` run after the lock
+was taken again; `create_region_if_needed` re-checks the hole and the file length under the write lock and inserts
+the region before releasing it -/
+theorem C10_sections :
+    firstSection Gen.wwExtendLastOrder = ["setReserved"] ∧
+    firstSection Gen.wwHoleOrder = ["removeOrCompressHole", "setReserved"] ∧
+    Gen.wwRelocateOrder = ["findHole", "removeOrCompressHole", "reserve", "dropLayout", "layoutLen", "reserve", "dropLayout",
+      "setMinLen", "layoutMut", "takeReserved", "dbCopy", "dbWrite", "layoutMut", "moveRegion", "takeReserved", "setStart",
+      "setReserved", "setLen"] ∧
+    Gen.wwFitsOrder = ["dbWrite", "setLen"] ∧
+    Gen.createRegionOrder = ["layoutRead", "findHole", "layoutLen", "dropLayout", "setMinLen", "dropLayout", "layoutMut",
+      "regionsMut", "findHole", "removeOrCompressHole", "layoutLen", "fileLen", "dropLayout", "setMinLen", "retry", "regionsCreate", "insertRegion"] := by
   decide
 end AnyDB.Conc
